@@ -96,6 +96,8 @@ func codecFamily(name string) (kind, family string) {
 	if i := strings.LastIndex(n, "."); i >= 0 {
 		n = n[i+1:]
 	}
+	// ReadFromXWithOptions / WriteToXWithOptions are the X codec with its options spelled out
+	n = strings.TrimSuffix(n, "WithOptions")
 	switch {
 	case strings.HasPrefix(n, "ReadFrom"):
 		return "read", strings.TrimPrefix(n, "ReadFrom")
@@ -268,6 +270,12 @@ func ruleExtDispatch(p *Prog, l *Ledger, tier string) {
 		return strings.Join(ks, " ")
 	}
 	l.Note("Open table: %s; Write table: %s", show(ot), show(wt))
+	if len(ot) < 6 || len(wt) < 5 {
+		// a dispatch the rule cannot read (rows of a struct of functions looked up in a helper, …): nothing below would
+		// be compared
+		l.Undecide(rule, "", rule+"|tables", "", fmt.Sprintf("extraction-below-minimum: the extension tables of Open (%d rows) and Write (%d rows) could not be read from the code (confirmed by hand: 7 and 6)", len(ot), len(wt)))
+		return
+	}
 	chk := func(ok bool, key, good, bad string) {
 		if ok {
 			l.Prove(rule, "", rule+"|"+key, "", good)
@@ -431,7 +439,7 @@ func ruleCLIDispatch(only ...string) func(p *Prog, l *Ledger, tier string) {
 				stop[arm.target] = true
 			}
 			var ops []*ssa.Call
-			var write *ssa.Call
+			var write, writeVia *ssa.Call
 			for _, c := range calls {
 				sc := c.Call.StaticCallee()
 				if sc == nil {
@@ -443,6 +451,16 @@ func ruleCLIDispatch(only ...string) func(p *Prog, l *Ledger, tier string) {
 				}
 				if n == "Subtitles.Write" {
 					write = c
+				}
+				// a helper of the command that writes the list it is given to the -o path
+				if fnPkg(sc) == p.CLISSA && len(sc.Blocks) > 0 && write == nil {
+					for _, hb := range sc.Blocks {
+						for _, hi := range hb.Instrs {
+							if hc, ok := hi.(*ssa.Call); ok && hc.Call.StaticCallee() != nil && FnName(hc.Call.StaticCallee()) == "Subtitles.Write" && len(hc.Call.Args) > 1 && flagVarOf(hc.Call.Args[1]) == "outputPath" {
+								write, writeVia = c, hc
+							}
+						}
+					}
 				}
 			}
 			var problems []string
@@ -473,7 +491,7 @@ func ruleCLIDispatch(only ...string) func(p *Prog, l *Ledger, tier string) {
 			}
 			if write == nil {
 				problems = append(problems, "never calls Write")
-			} else if flagVarOf(write.Call.Args[1]) != "outputPath" {
+			} else if writeVia == nil && flagVarOf(write.Call.Args[1]) != "outputPath" {
 				problems = append(problems, "writes to something other than the -o path")
 			}
 			if len(problems) > 0 {
